@@ -21,7 +21,8 @@ META = {
         "to each Tract (counter from 0, +1 per tract)."
         ' Also: Tract.__init__ stores source / orig_desc / orig_index as given (no truthiness filter), emitted Twp/Rge digits fit the TRS unpacker, parallel twp/rge/sec clauses are pure.'
         ' Round 7: the original text is recorded before any rewriting; the source tag is not truth-filtered on its way to the parser; a tract made by copying gets its own orig_index.'
-        ' Round 8: a keyword dict filtered by truthiness does not drop the source tag; trs_to_dict hands out a fresh dict.'),
+        ' Round 8: a keyword dict filtered by truthiness does not drop the source tag; trs_to_dict hands out a fresh dict.'
+        " Round 9: components handed to construct_trs are never an empty slice ('' means undefined)."),
     'families': ['SIB', 'DEFUSE', 'RX-LANG', 'TBL', 'FORWARD', 'DEADPARAM', 'SIB-DEFAULTS'],
 }
 
